@@ -501,7 +501,7 @@ func TestRawTemplates(t *testing.T) {
 		{"map value", `"0": []`, `"0": [true]`, `$.ByColor["0"][0]`, "expected a number"},
 		{"map null", `{"on": true}`, `null`, "", ""},
 		{"union unknown kind", `"Kind": "Circle"`, `"Kind": "Disc"`, "$.Shape.Data.Inner[0].Kind", "no alternative"},
-		{"union data of other member", `{"R": 0.5}`, `{"Side": 1, "Inner": null}`, "$.Shape.Data.Inner[0]", "no alternative"},
+		{"union data of other member", `{"R": 0.5}`, `{"Side": 1, "Inner": null}`, "$.Shape.Data.Inner[0].Data", `missing property "R"`},
 		{"union data field type", `{"R": 0.5}`, `{"R": "0.5"}`, "$.Shape.Data.Inner[0].Data.R", "expected a number"},
 		{"union missing Data", `{"Kind": "Empty", "Data": {}}`, `{"Kind": "Empty"}`, "$.Shape.Data.Inner[1]", "no alternative"},
 		{"union extra key", `{"Kind": "Empty", "Data": {}}`, `{"Kind": "Empty", "Data": {}, "X": 1}`, "$.Shape.Data.Inner[1].X", "extra property"},
